@@ -70,7 +70,7 @@ MATCHED = ['[Matched]\nmatch: any(r.amount == txn.amount for r in orders)\ntags:
            '[Matched]\nmatch: len(order_hits) > 0\ntags: matched\n']
 MATCHED_GLOBAL = 'order_hits = [r for r in orders if r.amount == txn.amount]\n'
 RULE_EXPR = {7: 'contains("SPLIT") and amount > 1000', 8: 'contains("SPLIT")', 6: 'startswith("APLPAY")', 1: 'contains("ALFA")', 2: 'contains("ALFA") and over and amount > 0', 4: '"PAYROLL" in description and regex("PAYROLL\\s+(ACME|\\sEXTRA)")'}
-PROBES = [('nv1', 1500.0), ('nv1', 5.0), ('nv2', -800.0), ('nv3', -2.0), ('nv4', -7.0), ('nv3', 12.5), ('nvp', 5.0), ('nvq', 9.0)]
+PROBES = [('nv1', 1500.0), ('nv1', -1500.0), ('nv1', 5.0), ('nv2', -800.0), ('nv3', -2.0), ('nv4', -7.0), ('nv3', 12.5), ('nvp', 5.0), ('nvq', 9.0)]
 
 
 def budget_case(item):
